@@ -490,6 +490,68 @@ example :
 
 end ElexModel.Boot
 
+/-! ### the group clause of C06 at source level: counted units and clip-stage predictions together
+
+A group's predicted normalised margin is `Σ yz / Σ z` over its counted units (reporting, unexpected: `dem − gop` over `dem + gop`) and its
+outstanding units (the point predictions the clip stage stores).  With the clip bounds of every outstanding unit feasible, the margin
+is in `[-1, 1]` and the predicted two-party turnout is non-negative — `margin_bounded` with its hypothesis discharged by
+`counted_margin_bounded` and `source_clip_point`, i.e. by the formulas as they stand in the source. -/
+
+namespace ElexModel.Boot
+open ElexModel
+
+/-- an outstanding unit as the clip stage sees it -/
+structure ClipUnit where
+  yPres : List ℚ
+  zRaws : List ℚ
+  yl : ℚ
+  yu : ℚ
+  zl : ℚ
+  zu : ℚ
+  w : ℚ
+
+def ClipUnit.Feasible (u : ClipUnit) : Prop :=
+  u.yPres ≠ [] ∧ u.zRaws ≠ [] ∧ u.yl ≤ u.yu ∧ -1 ≤ u.yl ∧ u.yu ≤ 1 ∧ 0 ≤ u.zl ∧ u.zl ≤ u.zu ∧ 0 ≤ u.w
+
+def ClipUnit.yBar (u : ClipUnit) : ℚ := meanR (u.yPres.map (fun y => Gen.C06.clip_y_draw y u.yl u.yu))
+def ClipUnit.zBar (u : ClipUnit) : ℚ := meanR (u.zRaws.map (fun z => Gen.C06.clip_z_draw z u.zl u.zu))
+def ClipUnit.pointYZ (u : ClipUnit) : ℚ := Gen.C06.clip_weighted_yz_test_pred u.yBar u.zBar u.yl u.yu u.zl u.zu u.w
+def ClipUnit.pointZ (u : ClipUnit) : ℚ := Gen.C06.clip_weighted_z_test_pred u.zBar u.yl u.yu u.zl u.zu u.w
+
+/-- (margin, two-party votes) of every member of the group: counted units first, then the outstanding ones -/
+def groupItems (counted : List (ℚ × ℚ)) (units : List ClipUnit) : List (ℚ × ℚ) :=
+  counted.map (fun p => (p.1 - p.2, p.1 + p.2)) ++ units.map (fun u => (u.pointYZ, u.pointZ))
+
+theorem groupItems_bounded (counted : List (ℚ × ℚ)) (units : List ClipUnit)
+    (hc : ∀ p ∈ counted, 0 ≤ p.1 ∧ 0 ≤ p.2) (hu : ∀ u ∈ units, u.Feasible) :
+    ∀ q ∈ groupItems counted units, |q.1| ≤ q.2 := by
+  intro q hq
+  unfold groupItems at hq
+  rcases List.mem_append.mp hq with h | h
+  · obtain ⟨p, hp, rfl⟩ := List.mem_map.mp h
+    exact counted_margin_bounded p.1 p.2 (hc p hp).1 (hc p hp).2
+  · obtain ⟨u, hu', rfl⟩ := List.mem_map.mp h
+    obtain ⟨h1, h2, h3, h4, h5, h6, h7, h8⟩ := hu u hu'
+    exact (source_clip_point u.yPres u.zRaws h1 h2 u.yl u.yu u.zl u.zu u.w h3 h4 h5 h6 h7 h8).2.1
+
+/-- **every group's predicted margin is in `[-1, 1]` and its predicted turnout is non-negative**, for the formulas of the source: any
+    counted units with non-negative counts, any outstanding units with feasible clip bounds, any raw draws -/
+theorem source_group_margin_bounded (counted : List (ℚ × ℚ)) (units : List ClipUnit)
+    (hc : ∀ p ∈ counted, 0 ≤ p.1 ∧ 0 ≤ p.2) (hu : ∀ u ∈ units, u.Feasible) :
+    -1 ≤ predMargin ((groupItems counted units).map Prod.fst) ((groupItems counted units).map Prod.snd) ∧
+    predMargin ((groupItems counted units).map Prod.fst) ((groupItems counted units).map Prod.snd) ≤ 1 ∧
+    0 ≤ sumR ((groupItems counted units).map Prod.snd) := by
+  apply margin_bounded _ _ (by simp)
+  intro i h1 h2
+  have hb := groupItems_bounded counted units hc hu
+  simp only [List.getElem_map]
+  exact hb _ (List.getElem_mem _)
+
+example : (⟨[3/2, -2], [-1, 5], 1/5, 3/5, 1, 9/7, 100⟩ : ClipUnit).Feasible := by
+  unfold ClipUnit.Feasible; refine ⟨by simp, by simp, ?_⟩; norm_num
+
+end ElexModel.Boot
+
 /-! ### the contest-effect decomposition of the bootstrap (`_estimate_epsilon`, `_estimate_delta`; model `Core/BootErr`)
 
 Every training residual is split into the effect of its contest and a unit-level rest.  For every assignment of units to contests and
